@@ -153,6 +153,9 @@ def overlay(prog, rep):
     fi = prog.func("_merge")
     a, b = fi.params[0], fi.params[1]
     loops = [n for n in fi.node.body if isinstance(n, ast.For)]
+    if not loops and any(isinstance(n, ast.While) for n in walk_own(fi.node)):
+        rep.undecided("OVERLAY", fi.short, "iteration", "_merge walks the documents with an explicit work list (while loop), which the per-key path analysis does not follow", fi.loc())
+        return
     if len(loops) != 1 or norm(loops[0].iter) not in (b, f"{b}.keys()"):
         rep.violation("OVERLAY", fi.short, "iteration", f"_merge does not iterate over every key of its second argument (loops over {[norm(l.iter) for l in loops]})", fi.loc())
         return
